@@ -7,6 +7,7 @@ G3  one-shot iterators (generator expressions, map/filter/zip objects) bound to 
     never inside a loop that does not re-create them.
 """
 import ast
+import re
 
 from verif_sa.core import Ob, AnalysisError, FileObj
 from verif_sa.facts import call_name, dotted
@@ -1042,6 +1043,20 @@ def G17_orientation_assumptions(repo, clause, scope=ALL_LIB):
                 obs.append(Ob("G17", clause, fn, c, False,
                               "`%s` in %s tests the SIGN of the cell determinant: a left-handed list of lattice vectors (a and b exchanged) has a negative determinant and would be treated "
                               "as %s; a volume test is `!= 0` or uses abs()" % (ast.unparse(c), fn.qualname, "not periodic / invalid"), slot="det-sign:%s" % fn.qualname, positive="robust"))
+        # (a2) the determinant used as a VOLUME in arithmetic (a distance between faces = volume / face area) without abs(): negative for a left-handed cell
+        for d in [x for x in fn.own_nodes() if isinstance(x, ast.Call) and call_name(x) == "det"]:
+            par = fn.parents.get(d)
+            if isinstance(par, ast.BinOp) and isinstance(par.op, (ast.Div, ast.Mult)) and not any(
+                    isinstance(a, ast.Call) and call_name(a) in ("abs", "fabs", "absolute") for a in fn.ancestors(d)):
+                st = fn.stmt_of(d)
+                tgt = st.targets[0].id if isinstance(st, ast.Assign) and isinstance(st.targets[0], ast.Name) else None
+                later_abs = tgt is not None and any(isinstance(y, ast.Call) and call_name(y) in ("abs", "fabs", "absolute") and any(isinstance(z, ast.Name) and z.id == tgt for z in ast.walk(y))
+                                                   for y in fn.own_nodes())
+                if not later_abs:
+                    n += 1
+                    obs.append(Ob("G17", clause, fn, par, False,
+                                  "`%s` in %s uses the SIGNED determinant as a volume: for a left-handed list of lattice vectors it is negative, and so is every length derived from it "
+                                  "(face distances, windows) - abs() is missing" % (ast.unparse(par)[:50], fn.qualname), slot="det-signed-volume:%s" % fn.qualname, positive="robust"))
         # (b)
         for a in [x for x in fn.own_nodes() if isinstance(x, ast.Assign) and len(x.targets) == 1 and isinstance(x.targets[0], ast.Name)
                   and any(isinstance(y, ast.Call) and call_name(y) == "uc_neighbor_offsets" for y in ast.walk(x.value))]:
@@ -1059,6 +1074,133 @@ def G17_orientation_assumptions(repo, clause, scope=ALL_LIB):
                                   "`%s` in %s picks neighbour offsets by POSITION: uc_neighbor_offsets lists the 27 images with the zero offset in the middle (index 13), not first - "
                                   "`[1:]` drops the (-1,-1,-1) image and keeps the central cell" % (ast.unparse(sub), fn.qualname), slot="offset-position:%s" % fn.qualname, positive="robust"))
     obs.append(Ob("G17", clause, fns[0], fns[0].node, True, "%d functions in scope, %d orientation / ordering assumptions flagged" % (len(fns), n), construct="orientation inventory", slot="inventory"))
+    return obs
+
+
+def G18_loop_variable_leak(repo, clause, scope=ALL_LIB):
+    """A `for` target keeps its LAST value after the loop.  Reading it after a loop that has no `break` (so the value is simply the last item, whatever happened in
+    the body) is almost never meant: typically a variable of the same name was supposed to be assigned on every path after the loop and one path was forgotten."""
+    obs = []
+    fns = _scope_fns(repo, scope)
+    n = 0
+    for fn in fns:
+        for loop in [x for x in fn.own_nodes() if isinstance(x, ast.For)]:
+            if any(isinstance(y, ast.Break) for y in ast.walk(loop)):
+                continue
+            tv = {y.id for y in ast.walk(loop.target) if isinstance(y, ast.Name)}
+            inside = {id(y) for y in ast.walk(loop)}
+            for u in fn.own_nodes():
+                if not (isinstance(u, ast.Name) and isinstance(u.ctx, ast.Load) and u.id in tv and id(u) not in inside):
+                    continue
+                # a comprehension / lambda that binds the same name has its own scope
+                own_scope = False
+                for a in fn.ancestors(u):
+                    if isinstance(a, (ast.ListComp, ast.SetComp, ast.DictComp, ast.GeneratorExp)) and any(
+                            isinstance(t, ast.Name) and t.id == u.id for g in a.generators for t in ast.walk(g.target)):
+                        own_scope = True
+                    if isinstance(a, ast.Lambda) and any(x.arg == u.id for x in a.args.args):
+                        own_scope = True
+                if own_scope:
+                    continue
+                st = fn.stmt_of(u)
+                if st is None:
+                    continue
+                try:
+                    ds = fn.rd.defs_at(st, u.id)
+                except Exception:
+                    continue
+                if not any(d is loop for d in ds):
+                    continue
+                # the use must really come after the loop (not in an earlier statement of an enclosing loop's next iteration only)
+                if not fn.cfg.reaches(loop, st):
+                    continue
+                n += 1
+                others = [d for d in ds if d is not loop]
+                obs.append(Ob("G18", clause, fn, st, False,
+                              "`%s` in `%s` (%s) may still hold the LAST item of the loop `for %s in %s` (no break in that loop)%s: the value read there does not depend on what the loop found" % (
+                                  u.id, ast.unparse(st)[:50], fn.qualname, ast.unparse(loop.target), ast.unparse(loop.iter)[:30],
+                                  " on the paths that skip `%s`" % ast.unparse(others[0])[:40] if others and isinstance(others[0], ast.AST) else ""),
+                              slot="loop-variable-leak:%s:%s" % (fn.qualname, u.id), positive="robust"))
+    obs.append(Ob("G18", clause, fns[0], fns[0].node, True, "%d functions in scope, %d reads of a loop variable after its loop flagged" % (len(fns), n), construct="loop variable inventory", slot="inventory"))
+    return obs
+
+
+def G19_bucket_key_present(repo, clause, scope=ALL_LIB):
+    """A dict of buckets built from the values that OCCUR in one collection (`atoms_by_type_dict(xs)`, `{k: [] for k in set(xs)}`) has no entry for a value that does not
+    occur.  Subscripting it with a key that comes from somewhere else (the pattern's elements, a caller's argument) raises KeyError exactly when the answer should be
+    "none"; the accepted idioms are `.get(k, [])`, a dominating `k in buckets` test, a try/except KeyError, or a key drawn from the dict / its source collection."""
+    from .common import norm_guards
+    obs = []
+    fns = _scope_fns(repo, scope)
+    n = 0
+    for fn in fns:
+        buckets = {}
+        for a in fn.own_nodes():
+            if isinstance(a, ast.Assign) and len(a.targets) == 1 and isinstance(a.targets[0], ast.Name):
+                v = a.value
+                src = None
+                if isinstance(v, ast.Call) and call_name(v) == "atoms_by_type_dict" and v.args:
+                    src = v.args[0]
+                elif isinstance(v, ast.DictComp) and len(v.generators) == 1 and isinstance(v.value, (ast.List, ast.Call)) and isinstance(v.generators[0].iter, ast.Call) \
+                        and call_name(v.generators[0].iter) == "set" and v.generators[0].iter.args:
+                    src = v.generators[0].iter.args[0]
+                if src is not None:
+                    buckets.setdefault(a.targets[0].id, []).append((a, src))
+        if not buckets:
+            continue
+        for u in fn.own_nodes():
+            if not (isinstance(u, ast.Subscript) and isinstance(u.ctx, ast.Load) and isinstance(u.value, ast.Name) and u.value.id in buckets):
+                continue
+            if len([x for x in fn.own_nodes() if isinstance(x, (ast.Assign, ast.AugAssign)) and any(isinstance(t, ast.Name) and t.id == u.value.id for t in (x.targets if isinstance(x, ast.Assign) else [x.target]))]) != len(buckets[u.value.id]):
+                continue    # the name is also bound to something else
+            if isinstance(u.slice, ast.Slice):
+                continue
+            n += 1
+            key = u.slice
+            srcs = {ast.unparse(sx) for _, sx in buckets[u.value.id]}
+            ok = False
+            # key drawn from the dict itself or from its source collection
+            knames = {y.id for y in ast.walk(key) if isinstance(y, ast.Name)}
+            for a_ in fn.ancestors(u):
+                if isinstance(a_, (ast.For, ast.comprehension)):
+                    pass
+                gens = a_.generators if isinstance(a_, (ast.ListComp, ast.SetComp, ast.DictComp, ast.GeneratorExp)) else []
+                loops = [(a_.target, a_.iter)] if isinstance(a_, ast.For) else [(g.target, g.iter) for g in gens]
+                for tg, it in loops:
+                    its = ast.unparse(it)
+                    tn = {y.id for y in ast.walk(tg) if isinstance(y, ast.Name)}
+                    if knames and knames <= tn and isinstance(key, ast.Name) and (its in srcs or its in (u.value.id, "%s.keys()" % u.value.id, "sorted(%s)" % u.value.id, "%s.items()" % u.value.id)
+                                                  or any(its == "set(%s)" % sx or its == "enumerate(%s)" % sx for sx in srcs)):
+                        ok = True
+                if isinstance(a_, ast.Try) and any(h.type is None or "KeyError" in ast.unparse(h.type) or "Exception" in ast.unparse(h.type) for h in a_.handlers):
+                    ok = True
+            if not ok:
+                ks = ast.unparse(key)
+                for test, pol, kind in norm_guards(fn, u):
+                    t = ast.unparse(test)
+                    if pol and re.search(r"%s\s+in\s+%s\b" % (re.escape(ks), re.escape(u.value.id)), t):
+                        ok = True
+                    if not pol and re.search(r"%s\s+not in\s+%s\b" % (re.escape(ks), re.escape(u.value.id)), t):
+                        ok = True
+                # comprehension filter `if k in buckets`
+                for a_ in fn.ancestors(u):
+                    if isinstance(a_, (ast.ListComp, ast.SetComp, ast.DictComp, ast.GeneratorExp)):
+                        for g in a_.generators:
+                            for c in g.ifs:
+                                if re.search(r"%s\s+in\s+%s\b" % (re.escape(ks), re.escape(u.value.id)), ast.unparse(c)):
+                                    ok = True
+                    if isinstance(a_, ast.IfExp) and re.search(r"%s\s+in\s+%s\b" % (re.escape(ks), re.escape(u.value.id)), ast.unparse(a_.test)) and any(y is u for y in ast.walk(a_.body)):
+                        ok = True
+            if ok:
+                obs.append(Ob("G19", clause, fn, u, True, "`%s` in %s: the key is drawn from the table or is tested first" % (ast.unparse(u)[:40], fn.qualname),
+                              slot="bucket-key:%s:%s" % (fn.qualname, ast.unparse(u)[:40])))
+            else:
+                obs.append(Ob("G19", clause, fn, u, False,
+                              "`%s` in %s: the table `%s` only has entries for the values that occur in `%s`; the key `%s` comes from elsewhere, so a value that does not occur raises "
+                              "KeyError where the answer is an empty list (use .get(key, []) or test `key in %s`)" % (
+                                  ast.unparse(u)[:40], fn.qualname, u.value.id, sorted(srcs)[0][:30], ast.unparse(key)[:30], u.value.id),
+                              slot="bucket-key:%s:%s" % (fn.qualname, ast.unparse(u)[:40]), positive="robust"))
+    obs.append(Ob("G19", clause, fns[0], fns[0].node, True, "%d functions in scope, %d subscripts of occurrence tables" % (len(fns), n), construct="occurrence table inventory", slot="inventory"))
     return obs
 
 
